@@ -57,40 +57,40 @@ pub fn color_to_string(color: Color) -> String {
 
 // See
 // https://en.wikipedia.org/wiki/ANSI_escape_code#8-bit
+// The first name listed for a number is the one used when printing a color.
+const ANSI_16_COLOR_NAMES: &[(&str, u8)] = &[
+    ("black", 0),
+    ("red", 1),
+    ("green", 2),
+    ("yellow", 3),
+    ("blue", 4),
+    ("magenta", 5),
+    ("purple", 5),
+    ("cyan", 6),
+    ("white", 7),
+    ("bright-black", 8),
+    ("brightblack", 8),
+    ("bright-red", 9),
+    ("brightred", 9),
+    ("bright-green", 10),
+    ("brightgreen", 10),
+    ("bright-yellow", 11),
+    ("brightyellow", 11),
+    ("bright-blue", 12),
+    ("brightblue", 12),
+    ("bright-magenta", 13),
+    ("brightmagenta", 13),
+    ("bright-purple", 13),
+    ("brightpurple", 13),
+    ("bright-cyan", 14),
+    ("brightcyan", 14),
+    ("bright-white", 15),
+    ("brightwhite", 15),
+];
+
 lazy_static! {
-    static ref ANSI_16_COLORS: HashMap<&'static str, u8> = {
-        vec![
-            ("black", 0),
-            ("red", 1),
-            ("green", 2),
-            ("yellow", 3),
-            ("blue", 4),
-            ("magenta", 5),
-            ("purple", 5),
-            ("cyan", 6),
-            ("white", 7),
-            ("bright-black", 8),
-            ("brightblack", 8),
-            ("bright-red", 9),
-            ("brightred", 9),
-            ("bright-green", 10),
-            ("brightgreen", 10),
-            ("bright-yellow", 11),
-            ("brightyellow", 11),
-            ("bright-blue", 12),
-            ("brightblue", 12),
-            ("bright-magenta", 13),
-            ("brightmagenta", 13),
-            ("bright-purple", 13),
-            ("brightpurple", 13),
-            ("bright-cyan", 14),
-            ("brightcyan", 14),
-            ("bright-white", 15),
-            ("brightwhite", 15),
-        ]
-        .into_iter()
-        .collect()
-    };
+    static ref ANSI_16_COLORS: HashMap<&'static str, u8> =
+        ANSI_16_COLOR_NAMES.iter().copied().collect();
 }
 
 pub fn ansi_16_color_name_to_number(name: &str) -> Option<u8> {
@@ -98,12 +98,12 @@ pub fn ansi_16_color_name_to_number(name: &str) -> Option<u8> {
 }
 
 fn ansi_16_color_number_to_name(n: u8) -> Option<&'static str> {
-    for (k, _n) in &*ANSI_16_COLORS {
-        if *_n == n {
-            return Some(*k);
-        }
-    }
-    None
+    // Not via the HashMap: several names map to the same number and hash iteration order
+    // differs from run to run.
+    ANSI_16_COLOR_NAMES
+        .iter()
+        .find(|(_, _n)| *_n == n)
+        .map(|(k, _)| *k)
 }
 
 /// The color mode determines some default color choices
